@@ -55,6 +55,10 @@ pub enum SOp {
     Pipe,
     /// lower the soft limit on open descriptors to N
     Limit(u8),
+    /// a child exits with this status and is left a zombie: kill with signal
+    /// 0 and with SIGTERM, wait, kill again (performed by `zombie_*`, appended
+    /// to the results of the history)
+    Zombie(u8),
     /// a large write (pipe capacity questions are not compared: only used on
     /// regular files)
     BigWrite(u8),
@@ -139,7 +143,8 @@ pub fn generate(rng: &mut Rng, long: bool) -> SHist {
             28 if rng.bool() => SOp::IsDir(path(rng)),
             28 => SOp::IsExec(path(rng)),
             29 if rng.bool() => SOp::Pipe,
-            29 => SOp::Limit(*rng.pick(&[3u8, 4, 5, 6, 8, 12])),
+            29 if rng.bool() => SOp::Limit(*rng.pick(&[3u8, 4, 5, 6, 8, 12])),
+            29 => SOp::Zombie(*rng.pick(&[0u8, 3, 7])),
             _ => SOp::Tmpfile,
         });
     }
@@ -161,7 +166,7 @@ fn errname(e: Errno) -> String {
 
 /// Issues the operations; one result line per operation. `base` is the
 /// directory the history started in (its name is hidden in `getcwd` results).
-pub fn run_ops<S>(sys: &S, h: &SHist, base: &str) -> Vec<String>
+pub fn run_ops<S>(sys: &S, h: &SHist, base: &str, zombie: &dyn Fn(u8) -> String) -> Vec<String>
 where
     S: Open
         + Close
@@ -383,6 +388,7 @@ where
                 format!("isdir: {}", sys.is_directory(&path))
             }
             SOp::BigWrite(_) => "bigwrite: -".into(),
+            SOp::Zombie(st) => format!("zombie: {}", zombie(*st)),
             SOp::IsExec(p) => {
                 let path = CString::new(PATHS[*p as usize]).unwrap();
                 format!("isexec: {}", sys.is_executable_file(&path))
@@ -471,7 +477,67 @@ pub fn run_virtual(h: &SHist) -> Vec<String> {
     }
     sys.umask(Mode::from_bits_truncate(0o022));
     sys.chdir(c"/base/work").ok();
-    run_ops(&sys, h, "/base/work")
+    let zsys = sys.clone();
+    run_ops(&sys, h, "/base/work", &move |st| zombie_virtual(&zsys, st))
+}
+
+/// kill / wait on a child that has exited but has not been waited for
+/// (simulated kernel).
+fn zombie_virtual(sys: &yash_env::system::r#virtual::VirtualSystem, status: u8) -> String {
+    use yash_env::job::Pid;
+    use yash_env::system::r#virtual::{Process, SIGTERM, VirtualSystem};
+    use yash_env::system::{Exit as _, SendSignal as _, Wait as _};
+    let pid = {
+        let mut st = sys.state.borrow_mut();
+        let pid = Pid(st.processes.keys().map(|p| p.0).max().unwrap_or(2) + 1);
+        let child = Process::fork_from(sys.process_id, st.processes.get(&sys.process_id).unwrap());
+        st.processes.insert(pid, child);
+        pid
+    };
+    let child = VirtualSystem {
+        state: std::rc::Rc::clone(&sys.state),
+        process_id: pid,
+    };
+    let _ = now(child.exit(yash_env::semantics::ExitStatus(status as i32)));
+    let k0 = now(sys.kill(pid, None)).map(|r| r.map_err(errname));
+    let kt = now(sys.kill(pid, Some(SIGTERM))).map(|r| r.map_err(errname));
+    let w = sys.wait(pid).map(|o| o.map(|(_, s)| format!("{s:?}"))).map_err(errname);
+    let k1 = now(sys.kill(pid, None)).map(|r| r.map_err(errname));
+    let w2 = sys.wait(pid).map(|o| o.is_some()).map_err(errname);
+    format!("kill0 {k0:?} killTERM {kt:?} wait {w:?} kill0-after {k1:?} wait-again {w2:?}")
+}
+
+/// The same on the real kernel.
+fn zombie_real(status: u8) -> String {
+    // SAFETY: plain libc calls in a single-threaded process
+    unsafe {
+        let pid = libc::fork();
+        if pid == 0 {
+            libc::_exit(status as i32);
+        }
+        if pid < 0 {
+            return "fork failed".into();
+        }
+        // wait until the child is a zombie, without reaping it
+        let mut info: libc::siginfo_t = std::mem::zeroed();
+        libc::waitid(libc::P_PID, pid as libc::id_t, &mut info, libc::WEXITED | libc::WNOWAIT);
+        let res = |r: i32| -> Result<(), String> { if r == 0 { Ok(()) } else { Err(format!("Errno({})", *libc::__errno_location())) } };
+        let k0 = Some(res(libc::kill(pid, 0)));
+        let kt = Some(res(libc::kill(pid, libc::SIGTERM)));
+        let mut st = 0;
+        let w: Result<Option<String>, String> = if libc::waitpid(pid, &mut st, 0) == pid {
+            Ok(Some(if libc::WIFEXITED(st) {
+                format!("Halted(Exited(ExitStatus({})))", libc::WEXITSTATUS(st))
+            } else {
+                format!("other({st})")
+            }))
+        } else {
+            Err(format!("Errno({})", *libc::__errno_location()))
+        };
+        let k1 = Some(res(libc::kill(pid, 0)));
+        let w2: Result<bool, String> = if libc::waitpid(pid, &mut st, libc::WNOHANG) >= 0 { Ok(true) } else { Err(format!("Errno({})", *libc::__errno_location())) };
+        format!("kill0 {k0:?} killTERM {kt:?} wait {w:?} kill0-after {k1:?} wait-again {w2:?}")
+    }
 }
 
 /// The real side, inside the child process (`yash-sim real-sys`): histories as
@@ -503,7 +569,7 @@ pub fn real_sys_main() -> ! {
         std::env::set_current_dir(&work).unwrap();
         sys.umask(Mode::from_bits_truncate(0o022));
         let base = work.to_string_lossy().into_owned();
-        all.push(run_ops(&sys, h, &base));
+        all.push(run_ops(&sys, h, &base, &zombie_real));
         // descriptors left open by the history are closed by hand: the next
         // history must start with the same free descriptors
         for fd in 3..64 {
